@@ -3,7 +3,7 @@
 of /repo's HEAD package - /repo itself is never touched.  Prints, per patch, which checks report a VIOLATION (exit 1),
 which answer ANALYSIS-ERROR (exit 2) and the first report lines.
 
-usage: try_patches.py [--jobs N] [--lines K] DIR [DIR ...]
+usage: try_patches.py [--jobs N] [--lines K] [--checks C01,C02] DIR [DIR ...]
 """
 from __future__ import annotations
 
@@ -18,6 +18,7 @@ from concurrent.futures import ThreadPoolExecutor
 VERIF = os.path.dirname(os.path.dirname(os.path.abspath(__file__)))
 ALL = [f"C{i:02d}" for i in range(1, 19)]
 PY = "/venv/bin/python"
+ONLY: list = []
 
 
 def one(d):
@@ -28,7 +29,7 @@ def one(d):
         if r.returncode != 0:
             return d, None, "patch does not apply: " + (r.stdout + r.stderr)[:200]
         det = {}
-        for p in ALL:
+        for p in (ONLY or ALL):
             env = dict(os.environ, SKVERIF_EVIDENCE_DIR=os.path.join(tmp, "_ev"), PYTHONPATH=VERIF)
             c = subprocess.run([PY, "-m", "skverif", "check", p, "--tier", "quick", "--repo", tmp], capture_output=True, text=True, env=env, cwd=VERIF, timeout=1800)
             if c.returncode != 0:
@@ -43,8 +44,10 @@ def main():
     ap = argparse.ArgumentParser()
     ap.add_argument("--jobs", type=int, default=8)
     ap.add_argument("--lines", type=int, default=2)
+    ap.add_argument("--checks", default="", help="comma-separated property ids (default: all 18)")
     ap.add_argument("dirs", nargs="+")
     a = ap.parse_args()
+    ONLY[:] = [c for c in a.checks.split(",") if c]
     with ThreadPoolExecutor(max_workers=a.jobs) as pool:
         for d, det, err in pool.map(one, a.dirs):
             name = os.path.basename(d.rstrip("/"))
